@@ -74,6 +74,7 @@ class Program:
             self.foreign.update(c.get("foreign_fns", []))
         self._callers = None
         self._ret_const = {}
+        self._ret_int = {}
 
     def fn(self, path):
         return self.fns.get(path)
@@ -134,6 +135,30 @@ class Program:
             vals.add(v)
         r = vals.pop() if len(vals) == 1 else None
         self._ret_const[path] = r
+        return r
+
+    def ret_int_const(self, path):
+        """integer/bool value when every live assignment to the return place of a local function is
+        that same literal constant (e.g. a CPU probe compiled to `false` in a no_std build)"""
+        if path in self._ret_int:
+            return self._ret_int[path]
+        self._ret_int[path] = None
+        f = self.fns.get(path)
+        if f is None:
+            return None
+        vals = set()
+        for bi, si, rv in f.defs.get(0, []):
+            if bi not in f.live:
+                continue
+            if rv is None or si == "call":
+                return None
+            e = strip_casts(f.rvalue_expr(rv))
+            if e[0] == "c" and isinstance(e[1], int) and e[2] is None:
+                vals.add(e[1])
+            else:
+                return None
+        r = vals.pop() if len(vals) == 1 else None
+        self._ret_int[path] = r
         return r
 
     # ---- call graph --------------------------------------------------------------------------
@@ -436,6 +461,10 @@ class Fn:
                     return int(r if m.group(1) == "eq" else not r)
         if e[0] == "c" and isinstance(e[1], int):
             return e[1]
+        if e[0] == "call" and isinstance(e[1], str) and e[1] in self.prog.fns:
+            v = self.prog.ret_int_const(e[1])
+            if v is not None:
+                return v
         if e[0] == "un" and e[1] == "Not":
             v = self.const_of(e[2])
             if v in (0, 1):
